@@ -331,7 +331,7 @@ func deliver(nd *labnet.Node, b *types.Block) (bool, error) {
 // runCase: h = [mode, pos, mutant]; mode 0: mutant extends the best chain; mode 1: mutant on a side branch
 // (valid chain already at pos+0, side branch = mutant + 2 children, longer than the main chain at that time).
 // pairVariants: an invalid block that is only invalid TOGETHER with its parent (both attached by one reorganisation).
-var pairVariants = []string{"child-respends-output-spent-by-parent", "child-respends-output-created-and-spent-in-parent", "child-spends-output-of-other-branch"}
+var pairVariants = []string{"child-respends-output-spent-by-parent", "child-respends-output-created-and-spent-in-parent", "child-spends-output-of-other-branch", "child-spends-output-created-and-spent-in-two-detached-blocks"}
 
 // runPair: mode 2 = the pair sits on a side branch that outgrows the main chain (fork switch);
 // mode 3 = the child is delivered first (orphan), then the parent extends the best chain (both connect in one call).
@@ -361,6 +361,22 @@ func runPair(h []int) (out xplore.Out) {
 		s1txs = nil
 		s2txs = []*types.Tx{labnet.Pay([]labnet.Out{{Tx: vo.Txs[0], Idx: len(vo.Txs[0].Outputs) - 1}}, labnet.Prog(0x76))}
 	}
+	// variant 3: the best chain first grows by m1 (creates X) and m2 (spends X); the side branch forks below both
+	// and its second block carries m2's transaction without m1's: the reorganisation detaches m2 AND m1 before it
+	// meets the invalid block, whatever the detach leaves behind of X must not make that spend valid
+	var detached []*labnet.B
+	if vi == 3 {
+		if mode == 3 {
+			out.Digest, out.Outcome = "n/a", "not-applicable"
+			return
+		}
+		t1 := labnet.Pay([]labnet.Out{P.U[5]}, labnet.Prog(0x77))
+		t2 := labnet.Pay([]labnet.Out{{Tx: t1, Idx: 0}}, labnet.Prog(0x78))
+		m1 := net.NewBlock(valid[pos-1], labnet.BlockOpt{Tag: 12, Txs: []*types.Tx{t1}})
+		m2 := net.NewBlock(m1, labnet.BlockOpt{Tag: 12, Txs: []*types.Tx{t2}})
+		detached = []*labnet.B{m1, m2}
+		s2txs = []*types.Tx{t2}
+	}
 	s1 := net.NewBlock(valid[pos-1], labnet.BlockOpt{Tag: 11, Txs: s1txs})
 	s2 := net.NewBlock(s1, labnet.BlockOpt{Tag: 11, Txs: s2txs})
 	s3 := net.NewBlock(s2, labnet.BlockOpt{Tag: 11})
@@ -384,7 +400,7 @@ func runPair(h []int) (out xplore.Out) {
 		}
 	}
 	validUpTo := pos - 1
-	if mode == 2 {
+	if mode == 2 && vi != 3 {
 		validUpTo = pos
 	}
 	for i := 1; i <= validUpTo; i++ {
@@ -393,7 +409,24 @@ func runPair(h []int) (out xplore.Out) {
 			return
 		}
 	}
-	if mode == 2 {
+	for i, m := range detached {
+		if orphan, err := deliver(nd, m.Block); err != nil || orphan {
+			viol("valid-block-refused", fmt.Sprintf("m%d: orphan=%v err=%v", i+1, orphan, err))
+			return
+		}
+	}
+	if vi == 3 {
+		s4 := net.NewBlock(s3, labnet.BlockOpt{Tag: 11})
+		bad[s4.Hash()] = "great-grandchild"
+		deliver(nd, s1.Block)
+		check("after parent")
+		deliver(nd, s2.Block)
+		check("after child")
+		deliver(nd, s3.Block)
+		check("after grandchild (side branch longer than the main chain)")
+		deliver(nd, s4.Block)
+		check("after great-grandchild")
+	} else if mode == 2 {
 		deliver(nd, s1.Block)
 		check("after parent")
 		deliver(nd, s2.Block)
